@@ -136,6 +136,9 @@ void run_step(Hist& H, Pool<Aut>& P, Pool<BDDTopDownTreeAut>& TD, const eng::Rec
 				for (int q : bj.states()) if (si.count(q)) disjoint = false;
 				if (!disjoint || i == j) { H.ctx.count(P.group[i] == P.group[j] ? "discarded_precondition_shared_table" : "discarded_precondition"); break; }
 			}
+			// products of products square in size: keep the histories cheap, and never call slowness a missing verdict
+			if (op == 6 && bi.rules.size() * bj.rules.size() > 1500) { H.ctx.count("skipped_large_product"); break; }
+			H.ctx.small_case(bi.rules.size() + bj.rules.size() <= 40);
 			H.log << H.step << ":" << enc << "." << name << "(h" << i << ",h" << j << ") ";
 			if (P.shares(i) || P.shares(j)) H.sharedBinary = true;
 			Aut res;
@@ -239,13 +242,25 @@ void harness::run_case(const eng::Raw& raw, eng::Ctx& ctx)
 	lim.maxStates = ctx.tier() ? 5 : 4;
 	lim.arity3 = false;
 	std::vector<gen::TACase> autos(3);
-	for (size_t t = 0; t < 3; ++t) {
+	{
+		// T0 and T1 are a related PAIR (strategies of DESIGN §3.4, split / superset / ablate weighted up), so that their
+		// product is rich; T2 is independent
 		eng::Raw sub;
 		eng::Rec hh = h;
-		hh[1] = h[1 + t]; hh[2] = h[4];      // state count per automaton, common alphabet
+		hh[0] = h[5]; hh[1] = h[1]; hh[2] = h[2]; hh[3] = h[4];
 		sub.push_back(hh);
-		for (size_t i = 1; i < firstStep; ++i) if ((raw[i][0] / 8) % 3 == t) sub.push_back(raw[i]);
-		autos[t] = gen::decode_ta(sub, lim, false);
+		for (size_t i = 1; i < firstStep; ++i) if ((raw[i][0] / 8) % 3 != 2) sub.push_back(raw[i]);
+		//                          indep sup abl split leaf detB degen
+		const std::vector<int> w = {2,    2,  2,  5,    0,   1,   0};
+		gen::PairCase pc = gen::decode_pair(sub, lim, w);
+		autos[0].A = pc.A; autos[0].n = pc.nA; autos[0].order = pc.orderA;
+		autos[1].A = pc.B; autos[1].n = pc.nB; autos[1].order = pc.orderB;
+		eng::Raw sub2;
+		eng::Rec h2 = h;
+		h2[1] = h[3]; h2[2] = h[4];
+		sub2.push_back(h2);
+		for (size_t i = 1; i < firstStep; ++i) if ((raw[i][0] / 8) % 3 == 2) sub2.push_back(raw[i]);
+		autos[2] = gen::decode_ta(sub2, lim, false);
 	}
 	std::ostringstream desc;
 	for (size_t t = 0; t < 3; ++t) desc << "T" << t << ": " << autos[t].A.str() << "\n";
@@ -261,7 +276,17 @@ void harness::run_case(const eng::Raw& raw, eng::Ctx& ctx)
 		for (size_t i = firstStep; i < raw.size(); ++i) plan << " " << (raw[i][3] % 2 ? "td" : "bu") << ":" << raw[i][0] % 12 << "(" << raw[i][1] % 6 << "," << raw[i][2] % 6 << ")";
 		ctx.describe(desc.str() + "planned steps (encoding:op(args), resolved against the live pool at run time):" + plan.str() + "\n");
 	}
-	ctx.small_case(true);
+	ctx.small_case(false);
+	// every history starts with the plain products of the related pair, in both operand orders, in both encodings
+	for (uint32_t enc = 0; enc < 2; ++enc) {
+		const eng::Rec pre[4] = {
+			{0, 0, h[6], enc, 0, 0, 0, 0}, {0, 1, h[7], enc, 0, 1, 0, 0},          // load T0; load T1 (numbers disjoint from T0's)
+			{6, 0, 1, enc, 0, 0, h[6] % 2, 0}, {6, 1, 0, enc, 0, 0, h[7] % 2, 0}}; // Intersection(h0,h1); Intersection(h1,h0)
+		for (const eng::Rec& r : pre) {
+			if (enc) run_step(H, TD, TD, r, autos, lastTD, biasTD);
+			else run_step(H, BU, TD, r, autos, lastBU, biasBU);
+		}
+	}
 	for (size_t i = firstStep; i < raw.size(); ++i) {
 		if (raw[i][3] % 2) run_step(H, TD, TD, raw[i], autos, lastTD, biasTD);
 		else run_step(H, BU, TD, raw[i], autos, lastBU, biasBU);
